@@ -36,7 +36,9 @@ QUICK_ZONES = ["Europe/Berlin", "America/New_York", "Africa/Cairo", "Europe/Mins
                "Africa/Tripoli", "Europe/Lisbon", "America/Indiana/Knox", "Asia/Kolkata", "UTC",
                "Australia/Lord_Howe", "Pacific/Apia", "Asia/Kathmandu", "America/Sao_Paulo", "Asia/Tehran",
                "Europe/Dublin", "Africa/Windhoek", "America/St_Johns", "Asia/Tokyo", "Europe/Moscow",
-               "Antarctica/Troll", "Pacific/Chatham", "America/Caracas", "Asia/Pyongyang", "Europe/London"]
+               "Antarctica/Troll", "Pacific/Chatham", "America/Caracas", "Asia/Pyongyang", "Europe/London",
+               "Africa/Monrovia"]       # the one id whose offset inside 1970-2038 is not a whole number of minutes (-00:44:30)
+SECONDS_ZONES = ["Africa/Monrovia"]
 
 
 def secs(dt):
@@ -174,6 +176,13 @@ def windows_for(ctx, zi):
     return ws
 
 
+def windows_for_zone(ctx, zi, zone):
+    ws = windows_for(ctx, zi)
+    if zone in SECONDS_ZONES:
+        ws.append((datetime.date(1970, 1, 1), datetime.date(1973, 1, 1)))
+    return ws
+
+
 def run(ctx, res):
     import zoneinfo
     from icalendar.timezone import tzp
@@ -212,7 +221,7 @@ def run(ctx, res):
                 for b, o, _d, _n in itab:
                     wc += [b + o, b + o - 3600, b + o + 3600, b + o - 1800, b + o + 1800, b + o - 7200, b + o + 7200]
                 atab, adflt = tabulate(wall_fn(tz), t_lo, t_hi, step, wc)
-            for first, last in windows_for(ctx, zi):
+            for first, last in windows_for_zone(ctx, zi, zone):
                 jobs.append(dict(zone=zone, provider=provider, first=first, last=last, tz=tz, itab=itab, idflt=idflt,
                                  atab=atab, adflt=adflt))
     tzp.use_default()
